@@ -1,6 +1,9 @@
 pub mod isolate;
 pub mod kf;
 pub mod runner;
+pub mod engine;
+pub mod sql;
+pub mod sqlite;
 pub mod tape;
 pub mod val;
 
